@@ -18,6 +18,10 @@ import z3
 # z3 5.x: the Diophantine-equation handler of the LIA solver (lp.dio) can run for hours on some of these queries
 # without honouring rlimit or the timeout (observed: a worker stuck in lp::dioph_eq::imp::substitute_on_q on numbers
 # with thousands of digits).  It is switched off for every query; PYVC_Z3_DIO=1 restores the default.
+import sys
+if hasattr(sys, 'set_int_max_str_digits'):
+    sys.set_int_max_str_digits(0)       # counter-models and pow2 refinement use integers with tens of thousands of digits
+
 if os.environ.get('PYVC_Z3_DIO') != '1':
     z3.set_param('lp.dio', False)
 
